@@ -3,11 +3,11 @@
 // Contracts for the deductive verifier in /verif (govc); comments only.
 package scramblesuit
 
-//@ pred dhHsInv(hs) := hs != nil && hs.mac != nil && hs.mac.hsize == 32 && (hs.serverPublicKey != nil ==> len(hs.serverMark) == 16)
+//@ pred dhHsInv(hs) := hs != nil && hs.mac != nil && hs.mac.hsize == 32 && (hs.serverPublicKey != nil ==> len(hs.serverMark) == 16 && hs.serverPublicKey.publicKey != nil)
 
 //@ func (*ssDHClientHandshake).parseServerHandshake(hs, resp) (n, seed, err)
 //@   serves C15 C10
-//@   requires dhHsInv(hs) && hs.keypair != nil
+//@   requires dhHsInv(hs) && privOK(hs.keypair)
 //@   modifies hs.serverPublicKey, hs.serverMark, hs.mac.*
 //@   ensures [C15:state_inv] dhHsInv(hs)
 //@   ensures [C15:consumed_le_received] err == nil ==> 224 <= n && n <= len(resp) && n <= 1532
